@@ -127,6 +127,10 @@ COLLISION_PAIRS = [
 ]
 CONTROL_PAIRS = [("alpha", "beta", "none"), ("fooBar", "fooBaz", "none"), ("a1", "a2", "none"), ("from", "import", "none"),
                  ("copy", "json", "none"), ("_x", "_y", "none"), ("Foo", "Bar", "none")]
+# variables whose PYTHON name is a local of the generated method (query / variables / response / data): the generator
+# renames its own local; the variable stays usable under its wire name
+VARIABLE_CONTROL_PAIRS = [("Query", "limit", "none"), ("QUERY", "data", "none"), ("query", "Variables", "none"),
+                          ("Response", "x", "none"), ("Data", "query_", "none"), ("variables", "response", "none")]
 SCOPES = ["response_keys", "input_fields", "variables", "operations", "enum_values"]
 
 
@@ -143,7 +147,7 @@ def enumerate_cases(tier):
     yield {"kind": "hashseed", "names": list(word_names())[:150] + list(itertools.islice(reduced_names(6), 0, 4000, 9))}
     open_tr = findings.open_triggers()
     for scope in SCOPES:
-        for a, b, cls in COLLISION_PAIRS + CONTROL_PAIRS:
+        for a, b, cls in COLLISION_PAIRS + CONTROL_PAIRS + (VARIABLE_CONTROL_PAIRS if scope == "variables" else []):
             for snake in (True, False):
                 collides = cls == "any" or (cls == "snake" and (snake or scope == "operations"))
                 trig = f"names.scope_collision.{scope}"
